@@ -108,8 +108,13 @@ pub fn serialize(cell: &A5Cell) -> Result<u64, String> {
         resolution,
     } = cell;
 
-    if *resolution > MAX_RESOLUTION {
+    // Resolution 30 has no room for its marker bit in a 64-bit index
+    if *resolution >= MAX_RESOLUTION {
         return Err(format!("Resolution ({}) is too large", resolution));
+    }
+
+    if *resolution < -1 {
+        return Err(format!("Resolution ({}) cannot be negative", resolution));
     }
 
     if *resolution == -1 {
